@@ -49,6 +49,7 @@ MISSED_FIRST = {
  "C16dD-2": "needs an Alpha image, an opaque flat colour and a target rectangle at (0,0) that is narrower than the image; C16's offset relation never used a zero offset, now an eighth of the cases do (and another quarter a zero x or y)",
  "C01dD-3": "needs PaletteIndexColor/CRegColor called with an index >= 64 (C09 caught it); the generators now pass any uint8 to the constructors, which reduce it modulo 64",
  "C20dE-1": "needs a Generator whose transform is reset by SetTransform() with no arguments; C20 now resets and replaces transforms on a Generator that already had one",
+ "C17dC-4": "needs program B to have a viewBox without extent (legal) on a reused Renderer; a tenth of C17's programs now have one (rasterizer logs only: non-finite coordinates are not handed to golang.org/x/image/vector)",
  "C20-2": "SetTransform was called once with literals; C20 now configures the generator twice from a caller-held slice and checks that the slice is unchanged",
 }
 
